@@ -63,7 +63,7 @@ def run(ctx):
     F = ctx.facts()
     rep = ctx.rep
     rep.not_decided += ['the checksum arithmetic itself (pnet)', 'truncation by `as u16` for replies above 64 KiB (frames are <= 4096 bytes; replies are bounded by the templates)',
-                        'byte offsets of pnet setters (validated against pnet MIR in the thorough tier only)']
+                        'byte offsets of pnet setters (library: part of the trusted base)']
     v4, v6, l2 = F.fn('layer_3::ipv4::repl'), F.fn('layer_3::ipv6::repl'), F.fn('layer_2::reply')
     rep.saw(v4, v6, l2)
 
